@@ -2,8 +2,8 @@ package main
 
 import (
 	"encoding/json"
-	"fmt"
 	"flag"
+	"fmt"
 	"go/token"
 	"math/rand"
 	"os"
@@ -38,6 +38,9 @@ func lifecycle(args []string) {
 	maxG := fs.Int("maxg", 0, "pairs: limit the number of predecessor files (0 = all)")
 	goVer := fs.String("go", "", "target Go version")
 	params := fs.String("params", "default", "parameter corner: default | min | max | name.param=value,... ")
+	repeats := fs.Int("repeats", 5, "repeat: number of passes")
+	resetEach := fs.Bool("reset-each-pass", false, "repeat: construct a new checker set for every pass")
+	rgrules := fs.String("rgrules", "", "value of the ruleguard checker's rules parameter (may contain commas)")
 	others := fs.Int("others", 0, "order: number of other checkers sampled per file (0 = all)")
 	fs.Parse(args)
 
@@ -54,6 +57,13 @@ func lifecycle(args []string) {
 	}
 	infos := hx.Infos()
 	applyParams(infos, *params)
+	if *rgrules != "" {
+		for _, in := range infos {
+			if in.Name == "ruleguard" {
+				in.Params["rules"].Value = *rgrules
+			}
+		}
+	}
 	var names []string
 	if *only != "" {
 		names = strings.Split(*only, ",")
@@ -111,6 +121,23 @@ func lifecycle(args []string) {
 					for _, f := range own[c] {
 						plan = append(plan, step{f, one}, step{g, one})
 					}
+				}
+			}
+		case "repeat":
+			// C02: the same corpus analysed again and again by the same set (and, with -reset-each-pass, by new sets);
+			// the first observation of every (checker, file) is the reference
+			for k := 0; k < *repeats; k++ {
+				if k > 0 && *resetEach {
+					plan = append(plan, step{nil, nil})
+				}
+				order := units
+				if k > 0 {
+					// a different visiting order in every pass: what came before a file must not matter either
+					order = append([]*hx.Unit{}, units...)
+					rng.Shuffle(len(order), func(i, j int) { order[i], order[j] = order[j], order[i] })
+				}
+				for _, u := range order {
+					plan = append(plan, step{u, names})
 				}
 			}
 		case "hist":
@@ -179,6 +206,9 @@ func lifecycle(args []string) {
 	need := map[*hx.Unit]map[string]bool{}
 	for _, plan := range plans {
 		for _, st := range plan {
+			if st.u == nil {
+				continue
+			}
 			if need[st.u] == nil {
 				need[st.u] = map[string]bool{}
 			}
@@ -187,9 +217,10 @@ func lifecycle(args []string) {
 			}
 		}
 	}
-	if r.Oblig["c03"] {
+	if r.Oblig["c03"] && !strings.Contains(*mode, "repeat") {
 		r.ComputeRefs(need)
 	}
+	r.RefFirst = strings.Contains(*mode, "repeat")
 	tRefs := time.Since(t0)
 	// a reference run that damages its input is a C05 violation too
 	refMut := 0
@@ -201,6 +232,10 @@ func lifecycle(args []string) {
 	for _, plan := range plans {
 		hx.Must(r.Reset(names))
 		for _, st := range plan {
+			if st.u == nil {
+				hx.Must(r.Reset(names))
+				continue
+			}
 			r.Visit(st.u)
 			for _, c := range st.cs {
 				r.Check(c)
